@@ -21,6 +21,11 @@ def _floors(scale):
         "end_explicit": 200 * scale,
         "start_explicit": 200 * scale,
         "retained_rechecked": 300 * scale,
+        # provider destroyed (no ForceFlush/Shutdown, all tracer handles dropped) with ended spans of two tracers still
+        # queued in a batch processor; smallest values at seeds {1,2,3,7,42}: 253 / 1031 / 513
+        "provider_teardowns_with_queued_spans": 80 * scale,
+        "spans_exported_at_provider_teardown": 300 * scale,
+        "spans_exported_at_provider_teardown_tracer0": 150 * scale,
         # concurrency clause
         "conc_ops_before_end": 2000 * scale,
         "conc_ops_after_end": 2000 * scale,
@@ -63,7 +68,13 @@ SPEC = {
              "last reference, then 0..8 calls on the ended span incl. End again. Every key, string, array, container and "
              "name is an exact-size heap block scribbled or freed right after the call. After End (+ForceFlush when a batch "
              "processor is present) every processor must have exactly one copy equal to the model; retained recordables "
-             "are re-read at the end of the case; counts are re-checked after Shutdown. conc: one span, 2..4 mutator "
+             "are re-read at the end of the case; counts are re-checked after Shutdown. Half of the cases with two tracers and a "
+             "batch processor (then built with a one-hour schedule delay, i.e. exporting only on ForceFlush/Shutdown/"
+             "destruction) end with 1..2 more spans per tracer (0..6 calls each) that are ended but NOT flushed: all span and "
+             "tracer handles are dropped and the provider is destroyed without ForceFlush/Shutdown; the copies exported during "
+             "that tear-down drain (the exporter reads name/version/schema of the scope and the resource attributes at Export "
+             "time) are compared with the model like any other, a missing or duplicate copy is class "
+             "'<kind>:<count>:provider-teardown'. conc: one span, 2..4 mutator "
              "threads with 4..30 calls each on thread-private keys/event names while 1..2 threads call End when a seeded "
              "share of the calls is done; per-thread effects must equal those of a prefix of its calls that contains every "
              "call returned before End was called and none called after End returned. A case is non-trivial if at least one "
